@@ -123,60 +123,65 @@ Proof. intros n m l Hnm H. eapply Forall_impl; [|exact H]. cbn; intros; lia. Qed
 Lemma upd_length : forall A (l : list A) i v, length (upd l i v) = length l.
 Proof. induction l; intros [|i] v; cbn; auto. Qed.
 
-Lemma snap_ok_mono : forall x, snap_ok x -> snap_ok x.
-Proof. auto. Qed.
+Lemma ids_ok_nth : forall n l i x, ids_ok n l -> nth_error l i = Some x -> x < n.
+Proof.
+  intros n l i x H E. unfold ids_ok in H. rewrite Forall_forall in H. apply H.
+  eapply nth_error_In; eassumption.
+Qed.
 
 Lemma wf_push : forall id s, wf s -> id < length (heap s) -> wf (do_push id s).
 Proof.
-  intros id s (H1 & H2 & H3 & H4) Hid. unfold wf, do_push; cbn.
+  intros id s (H1 & H2 & H3 & H4 & H5 & H6) Hid. unfold wf, do_push; cbn.
   repeat split; auto. constructor; auto.
 Qed.
 
 Lemma wf_alloc : forall o s, wf s -> wf (fst (alloc o s)) /\ snd (alloc o s) < length (heap (fst (alloc o s))).
 Proof.
-  intros o s (H1 & H2 & H3 & H4). unfold wf, alloc; cbn. rewrite app_length; cbn.
+  intros o s (H1 & H2 & H3 & H4 & H5 & H6). unfold wf, alloc; cbn. rewrite app_length; cbn.
   repeat split; auto; try lia; eapply ids_ok_mono; try eassumption; lia.
 Qed.
 
 Lemma wf_pop : forall s, wf s -> wf (fst (fst (do_pop s))).
 Proof.
-  intros s (H1 & H2 & H3 & H4). unfold do_pop.
+  intros s (H1 & H2 & H3 & H4 & H5 & H6). unfold do_pop.
   destruct (sseq s) as [|a ss] eqn:Es; cbn.
-  - unfold wf; rewrite Es; auto.
+  - unfold wf; rewrite Es; auto 10.
   - destruct (rng s) as [|g rr] eqn:Er; cbn in *; [discriminate|].
     unfold wf; cbn. inversion H1; subst. repeat split; auto.
 Qed.
 
 Lemma wf_spawn : forall id n s, wf s -> wf (do_spawn id n s).
 Proof.
-  intros id n s (H1 & H2 & H3 & H4). unfold wf, do_spawn; cbn.
+  intros id n s (H1 & H2 & H3 & H4 & H5 & H6). unfold wf, do_spawn; cbn.
   rewrite app_length, upd_length. unfold children; rewrite map_length, seq_length.
   repeat split; auto.
   - eapply ids_ok_mono; try eassumption; lia.
   - apply Forall_app; split.
     + apply Forall_forall. intros x Hx. apply in_rev in Hx. apply in_seq in Hx. lia.
     + eapply ids_ok_mono; try eassumption; lia.
+  - eapply ids_ok_mono; try eassumption; lia.
 Qed.
 
 Lemma wf_draw : forall k n s, wf s -> wf (fst (fst (do_draw k n s))).
 Proof.
-  intros k n s (H1 & H2 & H3 & H4). unfold do_draw.
+  intros k n s (H1 & H2 & H3 & H4 & H5 & H6). unfold do_draw.
   destruct (rng s) as [|g rr] eqn:Er; cbn.
-  - unfold wf; rewrite Er; auto.
+  - unfold wf; rewrite Er; auto 10.
   - unfold wf; cbn. repeat split; auto.
 Qed.
 
 Lemma wf_getstate : forall s, wf s -> wf (do_getstate s).
-Proof. intros s (H1 & H2 & H3 & H4). unfold wf, do_getstate; cbn. repeat split; auto. Qed.
+Proof. intros s (H1 & H2 & H3 & H4 & H5 & H6). unfold wf, do_getstate; cbn. repeat split; auto. Qed.
 
 Lemma wf_setstate : forall s, wf s -> wf (do_setstate s).
 Proof.
-  intros s (H1 & H2 & H3 & H4). unfold do_setstate.
-  destruct (saved s) as [[[h ss] rr]|] eqn:Es; [|unfold wf; rewrite Es; auto].
+  intros s (H1 & H2 & H3 & H4 & H5 & H6). unfold do_setstate.
+  destruct (saved s) as [[[h ss] rr]|] eqn:Es; [|unfold wf; rewrite Es; auto 10].
   destruct H4 as [Ha Hb]. unfold wf; cbn. rewrite app_length, map_length.
   repeat split; auto.
   - apply Forall_forall. intros x Hx. apply in_map_iff in Hx as (y & <- & Hy).
     unfold ids_ok in Ha. rewrite Forall_forall in Ha. specialize (Ha _ Hy). lia.
+  - eapply ids_ok_mono; try eassumption; lia.
   - eapply ids_ok_mono; try eassumption; lia.
 Qed.
 
@@ -186,8 +191,7 @@ Proof.
   - injection H as <- <-. apply (wf_alloc (mkS z [] 0) s Hw).
   - destruct (nth_error (pool s) v) as [x|] eqn:E; [|discriminate].
     injection H as <- <-. split; auto.
-    destruct Hw as (_ & H2 & _). unfold ids_ok in H2. rewrite Forall_forall in H2.
-    apply H2. eapply nth_error_In; eassumption.
+    destruct Hw as (_ & H2 & _). eapply ids_ok_nth; eassumption.
 Qed.
 
 Lemma wf_ctx_exit : forall d r, wf (fst (fst r)) -> wf (fst (fst (ctx_exit d r))).
@@ -196,6 +200,33 @@ Proof.
   pose proof (wf_pop s3 Hw) as Hp.
   destruct (do_pop s3) as [[s4 o4] t4]. cbn in Hp.
   destruct o4; [exact Hp|]. destruct (d =? length (sseq s4)); exact Hp.
+Qed.
+
+Lemma wf_new_ctx : forall id s, wf s -> id < length (heap s) -> wf (new_ctx id s).
+Proof.
+  intros id s (H1 & H2 & H3 & H4 & H5 & H6) Hid. unfold wf, new_ctx; cbn.
+  rewrite map_app, app_length. cbn. repeat split; auto.
+  - apply Forall_app; split; [assumption|]. repeat constructor. assumption.
+  - constructor; [lia|]. eapply ids_ok_mono; try eassumption; lia.
+Qed.
+
+Lemma map_upd_same : forall (l : list cobj) i d,
+  map c_sseq (upd l i (mkC (c_sseq (nth i l dC)) d)) = map c_sseq l.
+Proof. induction l; intros [|i] d; cbn; auto. rewrite IHl. reflexivity. Qed.
+
+Lemma wf_set_cdepth : forall cid d s, wf s -> wf (set_cdepth cid d s).
+Proof.
+  intros cid d s (H1 & H2 & H3 & H4 & H5 & H6). unfold wf, set_cdepth, cobj_of; cbn.
+  rewrite map_upd_same, upd_length. repeat split; auto.
+Qed.
+
+Lemma wf_cobj : forall s c cid, wf s -> nth_error (cpool s) c = Some cid ->
+  c_sseq (cobj_of s cid) < length (heap s).
+Proof.
+  intros s c cid (H1 & H2 & H3 & H4 & H5 & H6) E.
+  pose proof (ids_ok_nth _ _ _ _ H6 E) as Hc. unfold cobj_of.
+  unfold ids_ok in H5. rewrite Forall_forall in H5. apply H5.
+  rewrite <- (map_nth c_sseq). apply nth_In. rewrite map_length. exact Hc.
 Qed.
 
 Lemma wf_exec : forall p s, wf s -> wf (fst (fst (exec p s))).
@@ -209,9 +240,7 @@ Proof.
   - destruct (sseq s); cbn; [exact Hw|apply wf_spawn; assumption].
   - destruct (nth_error (pool s) v); cbn; [apply wf_spawn|]; assumption.
   - destruct (nth_error (pool s) v) as [id|] eqn:E; cbn; [|assumption].
-    apply wf_push; auto.
-    destruct Hw as (_ & H2 & _). unfold ids_ok in H2. rewrite Forall_forall in H2.
-    apply H2. eapply nth_error_In; eassumption.
+    apply wf_push; auto. destruct Hw as (_ & H2 & _). eapply ids_ok_nth; eassumption.
   - pose proof (wf_alloc (mkS z [] 0) s Hw) as [Ha Hb].
     destruct (alloc (mkS z [] 0) s) as [s1 id]. cbn in *. apply wf_push; assumption.
   - apply wf_pop; assumption.
@@ -222,11 +251,19 @@ Proof.
   - specialize (IHp s Hw). destruct (exec p s) as [[s1 o1] t1]. exact IHp.
   - apply wf_getstate; assumption.
   - apply wf_setstate; assumption.
+  - destruct (resolve i s) as [[s1 id]|] eqn:E; [|exact Hw].
+    destruct (wf_resolve _ _ _ _ Hw E) as [H1 H2]. cbn. apply wf_new_ctx; assumption.
+  - destruct (nth_error (cpool s) c) as [cid|] eqn:E; [|exact Hw].
+    pose proof (wf_cobj s c cid Hw E) as Hc.
+    assert (Hw1 : wf (do_push (c_sseq (cobj_of s cid)) (set_cdepth cid (length (sseq s)) s))).
+    { apply wf_push; [apply wf_set_cdepth; assumption|exact Hc]. }
+    specialize (IHp _ Hw1). unfold obj_exit.
+    destruct (exec p _) as [[s3 o3] t3] eqn:Eb. apply wf_ctx_exit. exact IHp.
 Qed.
 
 Lemma wf_isolate : forall s, wf s -> wf (isolate s).
 Proof.
-  intros s (H1 & H2 & H3 & H4). unfold wf, isolate; cbn. repeat split; auto. constructor.
+  intros s (H1 & H2 & H3 & H4 & H5 & H6). unfold wf, isolate; cbn. repeat split; auto. constructor.
 Qed.
 
 Lemma wf_init : forall e, wf (init e).
@@ -237,16 +274,16 @@ Proof. intros e. unfold wf, init; cbn. repeat split; auto; repeat constructor. Q
 (* ------------------------------------------------------------------------------------------ *)
 
 Lemma ctx_restores : forall i body s s1 o,
-  wf s ->
+  noobj body = true -> wf s ->
   exec (Ctx i body) (isolate s) = (s1, o, false) ->
   sseq s1 = [] ->
   exec (Ctx i body) s = (set_stacks s1 (sseq s) (rng s), o, false).
 Proof.
-  intros i body s s1 o Hw H Hs.
+  intros i body s s1 o Hno Hw H Hs.
   pose proof (wf_exec (Ctx i body) (isolate s) (wf_isolate s Hw)) as Hw1.
   rewrite H in Hw1. cbn in Hw1. destruct Hw1 as (_ & _ & Hl & _).
   rewrite Hs in Hl. cbn in Hl. symmetry in Hl. apply length_zero_iff_nil in Hl.
-  pose proof (frame_exec _ _ (sseq s) (rng s) _ _ H) as Hf.
+  pose proof (frame_exec (Ctx i body) Hno _ (sseq s) (rng s) _ _ H) as Hf.
   rewrite frame_isolate in Hf. rewrite Hf. rewrite frame_empty by assumption. reflexivity.
 Qed.
 
@@ -274,12 +311,12 @@ Proof.
 Qed.
 
 Lemma ctx_local : forall i body s s' s1 o,
-  wf s -> wf s' -> isolate s = isolate s' ->
+  noobj body = true -> wf s -> wf s' -> isolate s = isolate s' ->
   exec (Ctx i body) (isolate s) = (s1, o, false) -> sseq s1 = [] ->
   exec (Ctx i body) s = (set_stacks s1 (sseq s) (rng s), o, false) /\
   exec (Ctx i body) s' = (set_stacks s1 (sseq s') (rng s'), o, false).
 Proof.
-  intros i body s s' s1 o Hw Hw' Hi H Hs. split.
+  intros i body s s' s1 o Hno Hw Hw' Hi H Hs. split.
   - apply ctx_restores; assumption.
   - apply ctx_restores; try assumption. rewrite <- Hi. assumption.
 Qed.
@@ -443,6 +480,175 @@ Proof.
   rewrite E3. unfold ctx_exit, do_pop. rewrite Hs3, Hr3. cbn [set_stacks sseq].
   rewrite Nat.eqb_refl. eexists. split; [reflexivity|]. cbn.
   rewrite Hd3. unfold do_push; cbn. rewrite Hd0, Hs0, Hr0. auto.
+Qed.
+
+(* ------------------------------------------------------------------------------------------ *)
+(* Context OBJECTS that are created once and entered several times                              *)
+(* ------------------------------------------------------------------------------------------ *)
+
+Lemma cheap_pop : forall s, cheap (fst (fst (do_pop s))) = cheap s.
+Proof. intros s; unfold do_pop; destruct (sseq s); [reflexivity|destruct (rng s); reflexivity]. Qed.
+
+Lemma cheap_ctx_exit : forall d r, cheap (fst (fst (ctx_exit d r))) = cheap (fst (fst r)).
+Proof.
+  intros d [[s3 o] t]. unfold ctx_exit. pose proof (cheap_pop s3) as Hp.
+  destruct (do_pop s3) as [[s4 o4] t4]. cbn in *.
+  destruct o4; [exact Hp|]. destruct (d =? length (sseq s4)); exact Hp.
+Qed.
+
+(* programs without Context objects never touch the Context objects that exist *)
+Lemma noobj_cheap : forall p, noobj p = true -> forall s, cheap (fst (fst (exec p s))) = cheap s.
+Proof.
+  induction p; intros Hno s; cbn [noobj] in Hno; try discriminate;
+    try (apply andb_true_iff in Hno as [Hno1 Hno2]); cbn [exec].
+  - reflexivity.
+  - specialize (IHp1 Hno1 s). destruct (exec p1 s) as [[s1 o1] t1]. cbn in IHp1.
+    destruct o1; [exact IHp1|].
+    specialize (IHp2 Hno2 s1). destruct (exec p2 s1) as [[s2 o2] t2]. cbn in *. congruence.
+  - unfold do_draw. destruct (rng s); reflexivity.
+  - destruct (sseq s); reflexivity.
+  - destruct (nth_error (pool s) v); reflexivity.
+  - destruct (nth_error (pool s) v); reflexivity.
+  - reflexivity.
+  - apply cheap_pop.
+  - destruct (resolve i s) as [[s1 id]|] eqn:E; [|reflexivity].
+    rewrite cheap_ctx_exit, (IHp Hno). cbn.
+    destruct i; cbn in E.
+    + injection E as <- _. reflexivity.
+    + destruct (nth_error (pool s) v); [|discriminate]. injection E as <- _. reflexivity.
+  - reflexivity.
+  - specialize (IHp Hno s). destruct (exec p s) as [[s1 o1] t1]. exact IHp.
+  - reflexivity.
+  - unfold do_setstate. destruct (saved s) as [[[h ss] rr]|]; reflexivity.
+Qed.
+
+Lemma pure_noobj : forall p, pure p = true -> noobj p = true.
+Proof.
+  induction p; cbn; intros H; try discriminate; try reflexivity.
+  - apply andb_true_iff in H as [H1 H2]. rewrite IHp1, IHp2; auto.
+  - destruct i; [auto|discriminate].
+  - auto.
+Qed.
+
+Lemma nth_upd_same' : forall A (l : list A) i v d, i < length l -> nth i (upd l i v) d = v.
+Proof. induction l; intros [|i] v d H; cbn in *; try lia; auto. apply IHl. lia. Qed.
+
+(* Entering a Context OBJECT -- for the first time or again, at top level or nested -- pushes a NEW
+   generator built from its seed sequence: what a pure body draws, and the exception it ends
+   with, are functions of that generator identity and of the body, not of the state (hence not
+   of earlier entries of the same object); both stacks are restored. *)
+Lemma reentry_local_pure : forall body, pure body = true -> forall g0 : gen,
+  exists new o, forall s c cid,
+    nth_error (cpool s) c = Some cid -> cid < length (cheap s) ->
+    mkgen (lookup s (c_sseq (cobj_of s cid))) = g0 ->
+    exists s1, exec (Enter c body) s = (s1, o, false) /\
+               dlog s1 = new ++ dlog s /\ sseq s1 = sseq s /\ rng s1 = rng s.
+Proof.
+  intros body Hp g0.
+  destruct (pure_exec body Hp g0) as (n1 & o1 & g1 & F1).
+  exists n1, o1. intros s c cid Hc Hlt Hg. cbn [exec]. rewrite Hc.
+  set (s1 := set_cdepth cid (length (sseq s)) s).
+  set (sid := c_sseq (cobj_of s cid)).
+  destruct (F1 (do_push sid s1) sid (sseq s) (rng s)) as (s3 & E3 & Hs3 & Hr3 & Hd3).
+  { reflexivity. }
+  { unfold do_push; cbn. unfold sid. fold (lookup s (c_sseq (cobj_of s cid))). rewrite <- Hg. reflexivity. }
+  rewrite E3. unfold obj_exit.
+  assert (Hch : cheap s3 = cheap s1).
+  { pose proof (noobj_cheap body (pure_noobj _ Hp) (do_push sid s1)) as H. rewrite E3 in H. exact H. }
+  assert (Hdp : c_depth (cobj_of s3 cid) = length (sseq s)).
+  { unfold cobj_of. rewrite Hch. unfold s1, set_cdepth. cbn [cheap]. rewrite nth_upd_same' by assumption. reflexivity. }
+  rewrite Hdp. unfold ctx_exit, do_pop. rewrite Hs3, Hr3. cbn [set_stacks sseq].
+  rewrite Nat.eqb_refl. eexists. split; [reflexivity|]. cbn. rewrite Hd3. auto.
+Qed.
+
+(* bodies that change the stacks only through `with`, on inline contexts or on Context objects *)
+Fixpoint scoped2 (p : prog) : bool :=
+  match p with
+  | Skip | Draw _ _ | Spawn _ | SpawnFrom _ _ | Raise | NewCtx _ => true
+  | Seq p q => scoped2 p && scoped2 q
+  | Ctx _ b => scoped2 b
+  | Try b => scoped2 b
+  | Enter _ b => scoped2 b
+  | Push _ | PushSeed _ | Pop | GetState | SetState => false
+  end.
+
+Lemma scoped2_exec : forall p, scoped2 p = true ->
+  forall s a A g S, sseq s = a :: A -> rng s = g :: S ->
+  exists s1 o g1, exec p s = (s1, o, false) /\ sseq s1 = a :: A /\ rng s1 = g1 :: S /\
+                  same_id g g1 /\ o <> Some EIndex.
+Proof.
+  induction p; intros Hsc s a A g S Hs Hr; cbn [scoped2] in Hsc; try discriminate; cbn [exec].
+  - exists s, None, g. unfold same_id. repeat split; auto; discriminate.
+  - apply andb_true_iff in Hsc as [H1 H2].
+    destruct (IHp1 H1 s a A g S Hs Hr) as (s1 & o1 & g1 & E1 & Hs1 & Hr1 & Hi1 & Ho1).
+    rewrite E1. destruct o1 as [e|].
+    + exists s1, (Some e), g1. auto 10.
+    + destruct (IHp2 H2 s1 a A g1 S Hs1 Hr1) as (s2 & o2 & g2 & E2 & Hs2 & Hr2 & Hi2 & Ho2).
+      rewrite E2. exists s2, o2, g2. cbn. repeat split; auto;
+        destruct Hi1, Hi2; congruence.
+  - unfold do_draw. rewrite Hr. eexists _, None, _. cbn. unfold same_id. repeat split; eauto; discriminate.
+  - rewrite Hs. eexists _, None, g. unfold do_spawn, same_id; cbn. repeat split; eauto; discriminate.
+  - destruct (nth_error (pool s) v).
+    + eexists _, None, g. unfold do_spawn, same_id; cbn. repeat split; eauto; discriminate.
+    + exists s, None, g. unfold same_id. repeat split; auto; discriminate.
+  - destruct (resolve i s) as [[s0 id]|] eqn:Er.
+    + assert (Hs0 : sseq s0 = a :: A /\ rng s0 = g :: S).
+      { destruct i; cbn in Er.
+        - injection Er as <- _. cbn. auto.
+        - destruct (nth_error (pool s) v); [|discriminate]. injection Er as <- _. auto. }
+      destruct Hs0 as [Hs0 Hr0].
+      destruct (IHp Hsc (do_push id s0) id (a :: A) (mkgen (lookup s0 id)) (g :: S))
+        as (s3 & o3 & g3 & E3 & Hs3 & Hr3 & _ & Ho3).
+      { unfold do_push; cbn. rewrite Hs0. reflexivity. }
+      { unfold do_push; cbn. rewrite Hr0. reflexivity. }
+      rewrite E3. unfold ctx_exit, do_pop. rewrite Hs3, Hr3. cbn [set_stacks sseq].
+      rewrite Hs0. rewrite Nat.eqb_refl.
+      eexists _, o3, g. unfold same_id. cbn. repeat split; auto.
+    + exists s, None, g. unfold same_id. repeat split; auto; discriminate.
+  - exists s, (Some EUser), g. unfold same_id. repeat split; auto; discriminate.
+  - destruct (IHp Hsc s a A g S Hs Hr) as (s1 & o1 & g1 & E1 & Hs1 & Hr1 & Hi1 & Ho1).
+    rewrite E1. exists s1, None, g1. destruct Hi1. unfold same_id. repeat split; auto; discriminate.
+  - destruct (resolve i s) as [[s0 id]|] eqn:Er.
+    + assert (Hs0 : sseq s0 = a :: A /\ rng s0 = g :: S).
+      { destruct i; cbn in Er.
+        - injection Er as <- _. cbn. auto.
+        - destruct (nth_error (pool s) v); [|discriminate]. injection Er as <- _. auto. }
+      destruct Hs0 as [Hs0 Hr0].
+      eexists _, None, g. unfold new_ctx, same_id; cbn. repeat split; eauto; discriminate.
+    + exists s, None, g. unfold same_id. repeat split; auto; discriminate.
+  - destruct (nth_error (cpool s) c) as [cid|].
+    + set (s1 := set_cdepth cid (length (sseq s)) s).
+      destruct (IHp Hsc (do_push (c_sseq (cobj_of s cid)) s1) (c_sseq (cobj_of s cid)) (a :: A)
+                    (mkgen (lookup s1 (c_sseq (cobj_of s cid)))) (g :: S))
+        as (s3 & o3 & g3 & E3 & Hs3 & Hr3 & _ & Ho3).
+      { unfold do_push, s1; cbn. rewrite Hs. reflexivity. }
+      { unfold do_push, s1; cbn. rewrite Hr. reflexivity. }
+      rewrite E3. unfold obj_exit, ctx_exit, do_pop. rewrite Hs3, Hr3. cbn [set_stacks sseq].
+      destruct (c_depth (cobj_of s3 cid) =? length (a :: A)).
+      * eexists _, o3, g. unfold same_id. cbn. repeat split; auto.
+      * eexists _, (Some ERuntime), g. unfold same_id. cbn. repeat split; auto; discriminate.
+    + exists s, None, g. unfold same_id. repeat split; auto; discriminate.
+Qed.
+
+(* leaving a Context object -- entered for whichever time, also nested in itself -- restores both
+   stacks; the only exception __exit__ can add is the RuntimeError of the depth check (which a
+   nested entry of the SAME object provokes, because it overwrites self._depth) *)
+Lemma objects_restore : forall c body s s' o t,
+  scoped2 body = true ->
+  exec (Enter c body) s = (s', o, t) ->
+  sseq s' = sseq s /\ rng s' = rng s /\ t = false /\ o <> Some EIndex.
+Proof.
+  intros c body s s' o t Hsc H. cbn [exec] in H.
+  destruct (nth_error (cpool s) c) as [cid|].
+  - set (s1 := set_cdepth cid (length (sseq s)) s) in *.
+    destruct (scoped2_exec body Hsc (do_push (c_sseq (cobj_of s cid)) s1) (c_sseq (cobj_of s cid)) (sseq s)
+                (mkgen (lookup s1 (c_sseq (cobj_of s cid)))) (rng s))
+      as (s3 & o3 & g3 & E3 & Hs3 & Hr3 & _ & Ho3); try reflexivity.
+    rewrite E3 in H. unfold obj_exit, ctx_exit, do_pop in H. rewrite Hs3, Hr3 in H.
+    cbn [set_stacks sseq] in H.
+    destruct (c_depth (cobj_of s3 cid) =? length (sseq s)); injection H as <- <- <-; cbn;
+      repeat split; auto; discriminate.
+  - injection H as <- <- <-. repeat split; auto; discriminate.
 Qed.
 
 (* ------------------------------------------------------------------------------------------ *)
